@@ -18,8 +18,9 @@ from ..sexpr import A
 NAMES = ['IBM_DIRECTIVES', 'STRING_PP_DIRECTIVES', 'INTEGER_PP_DIRECTIVES', 'CONVERT_ENDIAN', 'OPEN_NEWUNIT',
          'FYPP ANNOTATIONS']
 PPTOKS = ['__FILE__', '__FILENAME__', '__DATE__', '__VERSION__', '__LINE__']
-CLASSES = ['macro-in-string', 'macro-in-comment', 'directive-midline', 'open-key-in-protected',
-           'open-convert-first', 'open-convert-and-newunit', 'line-macro-in-directive', 'macro-in-identifier']
+CLASSES = ['macro-in-string', 'macro-in-comment', 'open-key-in-protected', 'open-convert-first', 'macro-in-identifier']
+# repaired by fix: commits (known_findings.json status "fixed"): directive-midline, open-convert-and-newunit,
+# line-macro-in-directive — no longer classes; a recurrence is a VIOLATION
 # Python's `\s` for str patterns (the same 29 code points as `isWs` in the Lean model)
 WS = set(map(chr, [0x9, 0xa, 0xb, 0xc, 0xd, 0x1c, 0x1d, 0x1e, 0x1f, 0x20, 0x85, 0xa0, 0x1680] + list(range(0x2000, 0x200b))
              + [0x2028, 0x2029, 0x202f, 0x205f, 0x3000]))
@@ -159,13 +160,12 @@ def tok_adj_ident(code):
     return False
 
 
-def known_flags(body, out_body, info, ibm_rest_nonempty):
+def known_flags(body, info):
     segs = segments(body)
     hastok = lambda s: any(t in s for t in PPTOKS)
     k = []
     k.append(any(kind == 'str' and hastok(p) for _, kind, p in segs))
     k.append(any(kind == 'comment' and hastok(p) for _, kind, p in segs))
-    k.append(bool(ibm_rest_nonempty) or (bool(info['FYPP ANNOTATIONS']) and out_body != ''))
     k.append(open_head(body) and any(has_ci('CONVERT=', p) or has_ci('NEWUNIT=', p) for _, _, p in segs))
     cf = False
     if info['CONVERT_ENDIAN']:
@@ -175,9 +175,6 @@ def known_flags(body, out_body, info, ibm_rest_nonempty):
             j -= 1
         cf = j > 0 and pre[j - 1] == '('
     k.append(cf)
-    k.append(bool(info['CONVERT_ENDIAN']) and bool(info['OPEN_NEWUNIT']))
-    i = skipws(body)
-    k.append(i < len(body) and body[i] == '#' and '__LINE__' in body)
     k.append(any(tok_adj_ident(code) for code, _, _ in segs))
     return k
 
@@ -253,7 +250,9 @@ def structured(rng):
             ('code', "  print *, 'at', __LINE__, 'of', __FILE__ ! where"),
             ('directive', '#define HERE __FILE__ // __LINE__'), ('directive', '  #define X __DATE__'),
             ('annotation', '# 12 "file.fypp"'), ('annotation', '# 1 "a/b.hypp" 2'), ('annotation', '@PROCESS NOOPT'),
-            ('annotation', '  a = 1 # 1 "foo.fypp"'), ('annotation', '  print *, "# 1 ", "a.fypp"')]
+            ('annotation', '  # 7 "indented.fypp" 1'), ('annotation', '  @PROCESS HOT(NOVECTOR) NOSTRICT'),
+            ('annotation', '  print *, "# 1 ", "a.fypp"'), ('annotation', '  fn = "# 1 " // "a.fypp"'),
+            ('annotation', "  print *, 'see @PROCESS' ! or # 1 \"x.fypp\""), ('annotation', '  a = 1 ! # 2 "b.hypp" 3')]
     # OPEN statements: CONVERT= / NEWUNIT= in every argument position, spellings, case, spacing
     units = ['UNIT=iu', 'iu', 'NEWUNIT=iu', 'newunit=iu', 'NewUnit=iu']
     convs = ["CONVERT='BIG_ENDIAN'", 'convert="little_endian"', "Convert='Big_Endian'", 'CONVERT="LITTLE_ENDIAN"', None]
@@ -325,28 +324,31 @@ class C05(Prop):
     driver = 'Drivers/C05.lean'
     theorems = ['C05_registry_pinned', 'C05_no_trigger_identity', 'C05_untargeted_partial', 'C05_tokInProt_eq_classes',
                 'C05_targeted_restored_convert', 'C05_targeted_restored_newunit', 'C05_targeted_restored',
-                'C05_full_false', 'C05_restored_both_false', 'C05_fix_reverse_order']
+                'C05_directive_rules_anchored', 'C05_pp_directive_untouched', 'C05_full_false']
     design_ref = 'DESIGN.md 4.A C05'
     level_text = ('Theorems (Lean kernel; every line = any list of Unicode characters, with or without final newline, no length bound) '
-                  'about a line-level model of the six rules of sanitize_registry[FP] and of the two re-insertion callbacks: '
-                  'C05_no_trigger_identity (full strength) — a line containing none of the trigger texts (@PROCESS, the five macro '
-                  'tokens, CONVERT=/NEWUNIT= in any case, .fypp"/.hypp") is returned verbatim with empty pp_info; '
-                  'C05_targeted_restored_convert/_newunit (full strength) — whenever an OPEN rule fires, the recorded groups concatenate '
-                  'to exactly the line the rule was applied to, and C05_targeted_restored — with at most one OPEN rule firing the '
-                  're-inserted statement text is the line as it was before the OPEN rules; C05_untargeted_partial — outside the '
-                  'known-finding classes (macro token inside a literal or comment, rule 1/6 firing, both OPEN rules firing) the '
-                  'statement text after sanitisation and re-insertion is the line with only its code stretches rewritten, every '
-                  'character-literal stretch and the comment carried over verbatim in place; C05_full_false (witness print *, '
-                  "'__LINE__') and C05_restored_both_false (witness open(newunit=iu, convert='big_endian')) refute the full statements; "
-                  'C05_registry_pinned — the rule names, order, regex source texts, flags, replacements and callbacks regenerated from '
-                  '/repo are the ones the model was written for. The model is tied to the code by diffing sanitize_input output text, '
-                  'pp_info of every rule and the text produced by the real reinsert_* callbacks with the Lean driver on generated '
-                  'lines; "the program still parses" and IR-level literal/comment values are checked by the direct oracle only.')
+                  'about a line-level model of the six rules of sanitize_registry[FP] and of the two re-insertion callbacks (the code '
+                  'after the three fix: commits): C05_no_trigger_identity (full strength) — a line containing none of the trigger texts '
+                  '(@PROCESS, the five macro tokens, CONVERT=/NEWUNIT= in any case, .fypp"/.hypp") is returned verbatim with empty '
+                  'pp_info; C05_targeted_restored_convert/_newunit and C05_targeted_restored (full strength since the fix) — whenever an '
+                  'OPEN rule fires the recorded groups concatenate to exactly the line the rule was applied to, and after the callbacks '
+                  '(reverse registry order) the statement text is the line as it was before the OPEN rules, also when both rules fire; '
+                  'C05_directive_rules_anchored (full strength) — the @PROCESS and Fypp rules fire only on lines made of blanks + the '
+                  'directive and delete exactly that line; C05_pp_directive_untouched (full strength) — a # directive line with a macro '
+                  'token after the # passes the macro rules verbatim (now also __LINE__); C05_untargeted_partial — if no macro token '
+                  'lies inside a literal or comment (the open classes macro-in-string / macro-in-comment) and the line is not a deleted '
+                  'directive line, the statement text after sanitisation and re-insertion is the line with only its code stretches '
+                  'rewritten, every character-literal stretch and the comment carried over verbatim in place; C05_full_false (witness '
+                  "print *, '__LINE__') refutes the full statement; C05_registry_pinned — the rule names, order, regex source texts, "
+                  'flags, replacements and callbacks regenerated from /repo are the ones the model was written for. The model is tied to '
+                  'the code by diffing sanitize_input output text, pp_info of every rule and the text produced by the real sanitize_ir '
+                  'with the Lean driver on generated lines; "the program still parses", identifiers and IR-level literal/comment values '
+                  'are checked by the direct oracle only (open classes macro-in-identifier, open-convert-first, open-key-in-protected).')
     level_note = ('The model is hand-written per regex (leftmost match with greedy/lazy priorities made explicit) and validated by '
                   'correspondence, not derived from the regex text; a changed text breaks C05_registry_pinned. Per-line model: faithful '
-                  'for multi-line sources as long as no rule removes a newline before a later rule runs (rule 4 corner case, rule 6). '
+                  'for multi-line sources as long as no rule removes a newline before a later rule runs (rule 4 corner case). '
                   'Not modelled: the & continuation branch of the re-insertion callbacks, str.splitlines separators other than \\n '
-                  'inside a line, \\d beyond ASCII digits in the Fypp rule, the Fortran parser itself.')
+                  'inside a line, \\d beyond ASCII digits in the Fypp rule, the Fortran parser itself, the REGEX-frontend registry.')
     technique = ('Lean 4 theorems about a hand-written line-level model of the six FP sanitisation rules + correspondence with '
                  'sanitize_input / the re-insertion callbacks + parse/regenerate oracle with the real FP frontend')
     rule = ('structured stream: every trigger text (5 macro tokens, @PROCESS, CONVERT=, NEWUNIT=, full CONVERT argument, newunit=iu, '
@@ -395,29 +397,25 @@ class C05(Prop):
             return [A('error'), A('multiline')]
         out, info, per = run_sanitize(body, nl)
         out_body = out[:-1] if out.endswith('\n') else out
-        ibm_rest = bool(per['IBM_DIRECTIVES']) and out_body != '' and False
-        # remainder of the line after rule 1 alone (what the class predicate looks at)
-        if per['IBM_DIRECTIVES']:
-            ibm_rest = body[:body.find('@PROCESS')] != ''
         conv = per['CONVERT_ENDIAN']
         newu = per['OPEN_NEWUNIT']
         amp = (bool(conv) and rstrip_ws(conv[0]['post']).endswith('&')) or (bool(newu) and rstrip_ws(newu[0]['args2']).endswith('&'))
         eff = A('amp') if amp else run_reinsert(out_body, info)
-        strpp = []
-        for d in per['STRING_PP_DIRECTIVES']:
-            strpp.append([A('pp'), d['pp']] if d['pp'] is not None else [A('else'), d['else']])
+        def hits(name):
+            return [[A('pp'), d['pp']] if d['pp'] is not None else [A('else'), d['else']] for d in per[name]]
+        strpp = hits('STRING_PP_DIRECTIVES')
         assert len(conv) <= 1 and len(newu) <= 1
         return [A('ok'), out,
                 [A('ibm'), bool(per['IBM_DIRECTIVES'])],
                 [A('strpp')] + strpp,
-                [A('intpp'), per['INTEGER_PP_DIRECTIVES'] == [('__LINE__', '0')]],
+                [A('intpp')] + hits('INTEGER_PP_DIRECTIVES'),
                 [A('convert'), [conv[0][k] for k in ('ws', 'pre', 'convert', 'post')] if conv else A('none')],
                 [A('newunit'), [newu[0]['ws'], newu[0]['open'], newu[0]['args1'],
                                 newu[0]['delim'] if newu[0]['delim'] is not None else A('none'),
                                 newu[0]['newunit_key'], newu[0]['newunit_val'], newu[0]['args2']] if newu else A('none')],
                 [A('fypp'), bool(per['FYPP ANNOTATIONS'])],
                 [A('effective'), eff],
-                [A('known')] + known_flags(body, out_body, per, ibm_rest)]
+                [A('known')] + known_flags(body, per)]
 
     # ---- direct oracle
     def classify(self, body):
@@ -426,9 +424,7 @@ class C05(Prop):
             out, info, per = run_sanitize(body, True, strict=False)
         except ValueError:
             return []
-        out_body = out[:-1] if out.endswith('\n') else out
-        ibm_rest = bool(per['IBM_DIRECTIVES']) and body[:body.find('@PROCESS')] != ''
-        return [c for c, f in zip(CLASSES, known_flags(body, out_body, per, ibm_rest)) if f]
+        return [c for c, f in zip(CLASSES, known_flags(body, per)) if f]
 
     def oracle(self, req):
         if str(req[0]) != 'line' or len(req) < 4 or str(req[3]) != 'f':
@@ -457,7 +453,7 @@ class C05(Prop):
                 fails.append(Failure(f'directive line {sb!r} regenerated as {[l.strip() for l in region]!r}', cls))
             return fails
         if sb.startswith('@PROCESS'):
-            return fails
+            return fails   # IBM directive line: the target of rule 1 (dropped)
         rl, rc = [], []
         for l in region:
             a, b = literals_and_comments(l)
